@@ -13,6 +13,21 @@ import (
 // ---------- strings ----------
 
 func (x *Exec) strConcat(st *State, a, b *Term) *Term {
+	r := x.strConcat0(st, a, b)
+	// remember the pieces (used by handlers that parse constructed strings, e.g. civil.ParseDate)
+	parts := func(t *Term) []*Term {
+		if p, ok := x.job.concatParts[t.id]; ok {
+			return p
+		}
+		return []*Term{t}
+	}
+	if _, isLit := literalOf(r); !isLit {
+		x.job.concatParts[r.id] = append(append([]*Term{}, parts(a)...), parts(b)...)
+	}
+	return r
+}
+
+func (x *Exec) strConcat0(st *State, a, b *Term) *Term {
 	la, oka := literalOf(a)
 	lb, okb := literalOf(b)
 	if oka && okb {
